@@ -34,6 +34,25 @@ static inline void wit_stable(WIt *v)
   else if (v->l == g_ins_list && v->i >= g_ins_idx) v->i++;
 }
 #define WIT_STABLE(v) wit_stable(v)
+/* the rest of the list vocabulary (not used by the pinned code of this unit; present so that a rewritten splice that
+ * looks at elements is still decided instead of aborting the extraction) */
+#ifndef WLIST_EMPTY
+#define WLIST_EMPTY(l) ((l)->len == 0)
+#endif
+#define WLIST_BEGIN(l) ((WIt){(l), 0})
+#define WLIST_END(l) ((WIt){(l), (l)->len})
+static inline _Bool wit_ne(WIt a, WIt b) { __CPROVER_assert(a.l == b.l, "std::list: iterators of the same list are compared"); return a.i != b.i; }
+#define WIT_NE(a, b) wit_ne(a, b)
+static inline Slot *wl_at(WList *l, long i)
+{
+  __CPROVER_assert(i >= 0 && i < l->len, "std::list: element access inside the list");
+  if (l->w[0] == i) return &g_S[0];
+  if (l->w[1] == i) return &g_S[1];
+  Slot fresh; g_anon = fresh;
+  return &g_anon;
+}
+#define WIT_DEREF(it) wl_at((it).l, (it).i)
+#define WLIST_FRONT(l) wl_at(l, 0)
 /* std::list::sort(cmp): TRUSTED: a stable sort that looks at the elements only through cmp.  On the two-witness
  * abstraction: afterwards W0 precedes W1 iff cmp(W0, W1), or neither compares less and W0 preceded W1 before;
  * absolute positions are otherwise arbitrary.  ghost g_sorted[l] is not kept: the postcondition of splice states
@@ -50,6 +69,55 @@ extern _Bool g_lt01, g_lt10, g_sort_calls;
       if (__l->w[0] >= 0) { long __p = nondet_long(); __CPROVER_assume(__p >= 0 && __p < __l->len); __l->w[0] = __p; } \
       if (__l->w[1] >= 0) { long __p = nondet_long(); __CPROVER_assume(__p >= 0 && __p < __l->len); __l->w[1] = __p; } \
     } } while (0)
+
+/* the same with the comparator given as a function (address of a static member function) */
+#define WLIST_SORT_FN(l, fn) do { WList *__l = (l); g_sort_calls = 1; \
+    if (__l->w[0] >= 0 && __l->w[1] >= 0) { \
+      g_lt01 = fn(&g_S[0], &g_S[1]); g_lt10 = fn(&g_S[1], &g_S[0]); \
+      _Bool __first0 = g_lt01 || (!g_lt10 && __l->w[0] < __l->w[1]); \
+      long __p0 = nondet_long(), __p1 = nondet_long(); \
+      __CPROVER_assume(__p0 >= 0 && __p0 < __l->len && __p1 >= 0 && __p1 < __l->len && __p0 != __p1 && ((__p0 < __p1) == __first0)); \
+      __l->w[0] = __p0; __l->w[1] = __p1; \
+    } else { \
+      if (__l->w[0] >= 0) { long __p = nondet_long(); __CPROVER_assume(__p >= 0 && __p < __l->len); __l->w[0] = __p; } \
+      if (__l->w[1] >= 0) { long __p = nondet_long(); __CPROVER_assume(__p >= 0 && __p < __l->len); __l->w[1] = __p; } \
+    } } while (0)
+/* std::list::merge(other, cmp): TRUSTED: both lists must be sorted by cmp (checked on the witnesses); all elements of
+ * `other` move into this list, which stays sorted; for equivalent elements those of THIS list precede those of
+ * `other`, and the order inside each list is kept */
+#define WLIST_MERGE_FN(d, s, fn) do { WList *__d = (d), *__s = (s); \
+    __CPROVER_assert(__d != __s, "std::list::merge: different lists"); \
+    __CPROVER_assert(!(__d->w[0] >= 0 && __d->w[1] >= 0) || !(__d->w[0] < __d->w[1] ? fn(&g_S[1], &g_S[0]) : fn(&g_S[0], &g_S[1])), "std::list::merge requires this list to be sorted by the comparator"); \
+    __CPROVER_assert(!(__s->w[0] >= 0 && __s->w[1] >= 0) || !(__s->w[0] < __s->w[1] ? fn(&g_S[1], &g_S[0]) : fn(&g_S[0], &g_S[1])), "std::list::merge requires the other list to be sorted by the comparator"); \
+    _Bool __in0 = __d->w[0] >= 0 || __s->w[0] >= 0, __in1 = __d->w[1] >= 0 || __s->w[1] >= 0; \
+    _Bool __first0 = 0; \
+    if (__in0 && __in1) { \
+      if (__d->w[0] >= 0 && __d->w[1] >= 0) __first0 = __d->w[0] < __d->w[1]; \
+      else if (__s->w[0] >= 0 && __s->w[1] >= 0) __first0 = __s->w[0] < __s->w[1]; \
+      else if (__d->w[0] >= 0) __first0 = !fn(&g_S[1], &g_S[0]);      /* W0 is this list's: it stays first unless W1 is strictly less */ \
+      else __first0 = fn(&g_S[0], &g_S[1]); \
+    } \
+    __d->len += __s->len; __s->len = 0; __s->w[0] = -1; __s->w[1] = -1; \
+    long __p0 = nondet_long(), __p1 = nondet_long(); \
+    __CPROVER_assume(!__in0 || (__p0 >= 0 && __p0 < __d->len)); __CPROVER_assume(!__in1 || (__p1 >= 0 && __p1 < __d->len)); \
+    __CPROVER_assume(!(__in0 && __in1) || (__p0 != __p1 && ((__p0 < __p1) == __first0))); \
+    __d->w[0] = __in0 ? __p0 : -1; __d->w[1] = __in1 ? __p1 : -1; \
+  } while (0)
+#define WLIST_BACK(l) wl_at(l, (l)->len - 1)
+/* std::lower_bound / upper_bound over a list range partitioned with respect to the value (checked on the witnesses):
+ * the position p with  element < value  exactly for the elements before p  (upper_bound: !(value < element)) */
+static inline WIt wl_bound(WIt first, WIt last, Slot *val, _Bool lt0, _Bool lt1)
+{
+  __CPROVER_assert(first.l == last.l && first.i >= 0 && first.i <= last.i && last.i <= first.l->len, "std::lower_bound / upper_bound: a valid range of one list");
+  WList *l = first.l;
+  long p = nondet_long();
+  __CPROVER_assume(p >= first.i && p <= last.i);
+  if (l->w[0] >= first.i && l->w[0] < last.i && val != &g_S[0]) __CPROVER_assume((l->w[0] < p) == lt0);
+  if (l->w[1] >= first.i && l->w[1] < last.i && val != &g_S[1]) __CPROVER_assume((l->w[1] < p) == lt1);
+  return (WIt){l, p};
+}
+#define WLIST_LOWER_BOUND_FN(first, last, val, fn) wl_bound(first, last, val, fn(&g_S[0], val), fn(&g_S[1], val))
+#define WLIST_UPPER_BOUND_FN(first, last, val, fn) wl_bound(first, last, val, !fn(val, &g_S[0]), !fn(val, &g_S[1]))
 
 #define WL_SMALL(l) ((l).len < (1L << 38))
 #define WL_OK_M(l) ((l).len >= 0 && (l).len < (1L << 40) && (l).w[0] >= -1 && (l).w[0] < (l).len && (l).w[1] >= -1 && (l).w[1] < (l).len && ((l).w[0] < 0 || (l).w[0] != (l).w[1]))
@@ -75,6 +143,12 @@ extern _Bool g_lt01, g_lt10, g_sort_calls;
  * neither compares less they are in the relative order the plain splice left them in */
 #define SORTED_W(LT) ((self->base.w[0] >= 0 && self->base.w[1] >= 0) ==> \
     ((W_LT(LT, &g_S[0], &g_S[1]) ==> self->base.w[0] < self->base.w[1]) && (W_LT(LT, &g_S[1], &g_S[0]) ==> self->base.w[1] < self->base.w[0])))
+/* witness a came from `other`, witness b was in this list: the plain splice puts a in front of b exactly when b is at or
+ * behind pos; a stable sort keeps that order when neither compares less */
+#define XSTABLE(LT, a, b) ((__CPROVER_old(other->base.w[a]) >= 0 && __CPROVER_old(self->base.w[b]) >= 0 && !W_LT(LT, &g_S[0], &g_S[1]) && !W_LT(LT, &g_S[1], &g_S[0])) ==> \
+    ((self->base.w[a] < self->base.w[b]) == (__CPROVER_old(self->base.w[b]) >= pos.i)))
+#define XSTABLE1(LT, a, b) ((__CPROVER_old(other->base.w[a]) == it.i && __CPROVER_old(self->base.w[b]) >= 0 && !W_LT(LT, &g_S[0], &g_S[1]) && !W_LT(LT, &g_S[1], &g_S[0])) ==> \
+    ((self->base.w[a] < self->base.w[b]) == (__CPROVER_old(self->base.w[b]) >= pos.i)))
 #define SPLICE_ALL_CONTRACT(LT) \
   __CPROVER_requires(__CPROVER_is_fresh(self, sizeof(*self)) && __CPROVER_is_fresh(other, sizeof(*other))) \
   __CPROVER_requires(WL_OK_M(self->base) && WL_OK_M(other->base) && WL_SMALL(self->base) && WL_SMALL(other->base) && pos.l == &self->base && pos.i >= 0 && pos.i <= self->base.len) \
@@ -85,6 +159,7 @@ extern _Bool g_lt01, g_lt10, g_sort_calls;
   __CPROVER_ensures((self->base.w[0] >= 0) == (__CPROVER_old(self->base.w[0]) >= 0 || __CPROVER_old(other->base.w[0]) >= 0)) \
   __CPROVER_ensures((self->base.w[1] >= 0) == (__CPROVER_old(self->base.w[1]) >= 0 || __CPROVER_old(other->base.w[1]) >= 0)) \
   __CPROVER_ensures(SORTED_W(LT)) \
+  __CPROVER_ensures(XSTABLE(LT, 0, 1) && XSTABLE(LT, 1, 0))      /* stability across the two lists: equal events keep the order the plain splice gives them */ \
   __CPROVER_ensures(((g_b0 || g_b1) && !W_LT(LT, &g_S[0], &g_S[1]) && !W_LT(LT, &g_S[1], &g_S[0])) ==> ((self->base.w[0] < self->base.w[1]) == g_b0))   /* stable */
 #define CONTRACT_OQL_splice SPLICE_ALL_CONTRACT(USER_LT)
 #define CONTRACT_OQLD_splice SPLICE_ALL_CONTRACT(DEF_LT)
@@ -98,4 +173,5 @@ extern _Bool g_lt01, g_lt10, g_sort_calls;
   __CPROVER_ensures((self->base.w[0] >= 0) == (__CPROVER_old(self->base.w[0]) >= 0 || __CPROVER_old(other->base.w[0]) == it.i)) \
   __CPROVER_ensures((self->base.w[1] >= 0) == (__CPROVER_old(self->base.w[1]) >= 0 || __CPROVER_old(other->base.w[1]) == it.i)) \
   __CPROVER_ensures(SORTED_W(USER_LT)) \
+  __CPROVER_ensures(XSTABLE1(USER_LT, 0, 1) && XSTABLE1(USER_LT, 1, 0)) \
   __CPROVER_ensures(((g_b0 || g_b1) && !W_LT(USER_LT, &g_S[0], &g_S[1]) && !W_LT(USER_LT, &g_S[1], &g_S[0])) ==> ((self->base.w[0] < self->base.w[1]) == g_b0))
